@@ -699,6 +699,12 @@ def parse_vc(path):
                     if not m2:
                         raise ExtractError(f'{path}: bad #subst: {s2}')
                     fn.setdefault('subst', []).append((m2.group(1).strip(), m2.group(2).strip()))
+                elif s2.startswith('#truncate-before '):
+                    # R9 variant: cut right BEFORE the first match of the regex
+                    m2 = re.match(r'#truncate-before\s+/(.+)/\s*=\s*(.+)$', s2)
+                    if not m2:
+                        raise ExtractError(f'{path}: bad #truncate-before (need `/regex/ = expr`): {s2}')
+                    fn['truncate'] = (r'(?s)\A.*?(?=' + m2.group(1) + ')', m2.group(2).strip())
                 elif s2.startswith('#truncate-after '):
                     # R9: `#truncate-after /regex/ = tail-expression`: everything of the body BEHIND the match is
                     # replaced by one call to an unconstrained assumed function (only a prefix is verified)
